@@ -329,6 +329,8 @@ def _frames(seed: int):
     df = pd.DataFrame(rows, columns=cols)
     if n:
         df = df.astype({c: "int64" for c in cols if c not in ("name", "cat")})
+        if seed % 4 == 2:
+            df = df.astype({"iteration": "int8", "rank": "int8"})  # the loader stores small step numbers / ranks in one byte: requested values beyond that range select nothing
         if seed % 3 == 0:
             df = df.sample(frac=1.0, random_state=seed)  # labels no longer sorted
         df = df.set_index("index", drop=False)
@@ -384,9 +386,9 @@ def _bounded_case(seed: int) -> Dict[str, Any]:
                 fails.append({"what": f"{label}.content", "input": {"seed": seed, "frame": before.to_dict("records")}, "observed": out.to_dict("records")[:5]})
         return out
 
-    its = rng.choice([[3], [4, 7], [-1], [3, 99], []])
+    its = rng.choice([[3], [4, 7], [-1], [3, 99], [], [259], [255, 260]])  # 259 = 3 + 256, 255 = -1 + 256, 260 = 4 + 256
     check("IterationFilter", tf.IterationFilter(its), enc, None, lambda r: r["iteration"] in its, dec)
-    rk = rng.choice([[0], [1, 5], 5, [2]])
+    rk = rng.choice([[0], [1, 5], 5, [2], [261], [256, 257]])  # 261 = 5 + 256, 256 = 0 + 256, 257 = 1 + 256
     rkl = [rk] if isinstance(rk, int) else rk
     check("RankFilter", tf.RankFilter(rk), enc, None, lambda r: r["rank"] in rkl, dec)
     a = rng.randint(0, 30)
